@@ -3,7 +3,7 @@
    (scheme, host, path) carried which basic-auth pair.  Library results (url.Parse,
    urlutil.Equal, index lookups, reference resolution) come with the case as tables. *)
 From Coq Require Import List String Ascii Bool Arith.
-From Helm Require Import Common.Assoc Misc.Creds Misc.CredsUrl.
+From Helm Require Import Common.Assoc Misc.Creds Misc.CredsUrl Misc.CredsRedirect.
 Import ListNotations.
 Local Open Scope string_scope.
 
@@ -21,8 +21,8 @@ Inductive cpath :=
 | PManager (dep_repo name version : string) (with_prov first_ok : bool)
 | PUrls (l : list (string * option usplit)).       (* url.Parse on generated strings: differential check of Misc/CredsUrl.v *)
 
-(* one request seen by the capture server (first hop only; redirect follow-ups are not the
-   getter's doing and are left to the runtime oracle) *)
+(* one request seen by the capture server: first hops (the getter's doing) and redirect
+   follow-ups (net/http's doing, Misc/CredsRedirect.v), in order *)
 Record obs := mkObs { ob_scheme : string; ob_host : string; ob_path : string; ob_auth : option (string * string) }.
 
 Record case := mkCase {
@@ -30,6 +30,7 @@ Record case := mkCase {
   k_parse_err : list string;                (* candidate strings on which url.Parse failed *)
   k_equal : list (string * string);         (* pairs on which urlutil.Equal is true *)
   k_tab : list (string * string);           (* lookup / find_in / dep_url / index_url tables, keyed *)
+  k_redirect : list (string * string);      (* server behaviour: Host header ++ path -> Location of a 302 *)
   k_repos : list entry;
   k_path : cpath;
   k_obs : list obs }.
@@ -114,6 +115,20 @@ Section Run.
                      else let '(a, b) := split_colon t in (String ch a, b)
     end.
 
+  (* the Location URLs a request to u is sent along (net/http follows at most 10) *)
+  Fixpoint chain (fuel : nat) (host_hdr : string) (u : url) : list url :=
+    match fuel with
+    | O => []
+    | S f =>
+        match aget (host_hdr ++ u_path u) (k_redirect c) with
+        | None => []
+        | Some loc => match t_parse loc with
+                      | None => []
+                      | Some d => d :: chain f (u_host d) d
+                      end
+        end
+    end.
+
   Definition ends_with (suf s : string) : bool :=
     Nat.leb (String.length suf) (String.length s)
     && String.eqb (substring (String.length s - String.length suf) (String.length suf) s) suf.
@@ -165,9 +180,27 @@ Section Run.
     | _, _ => false
     end.
 
+  (* a first hop and its redirect follow-ups: the header Helm set travels as net/http's
+     policy says; a hop without it gets the userinfo of its own URL, if any *)
+  Definition expand (x : string * gres) : list obs :=
+    match project x, snd x, t_parse (fst x) with
+    | Some o, GReq a, Some u =>
+        let hops := chain 10 (wire_host (u_host u)) u in
+        o :: map (fun dk : url * option cred =>
+                    let '(d, k) := dk in
+                    mkObs (u_scheme d) (u_host d) (u_path d)
+                          (match k with
+                           | Some (Cred us pw _) => Some (us, pw)
+                           | None => option_map split_colon (u_user d)
+                           end))
+                 (combine hops (hop_auths u a hops))
+    | Some o, _, _ => [o]
+    | None, _, _ => []
+    end.
+
   Definition case_ok : bool :=
     splitter_ok &&
-    list_eqb obs_eqb (filter keep (somes (map project model_reqs))) (filter keep (k_obs c)).
+    list_eqb obs_eqb (filter keep (flat_map expand model_reqs)) (filter keep (k_obs c)).
 End Run.
 
 Fixpoint mismatches_from (i : nat) (cs : list case) : list nat :=
